@@ -1414,6 +1414,19 @@ func (st *State) callBuiltin(th *Thread, fr *Frame, b *ssa.Builtin, args []Value
 				v.M.Entries = nil
 			}
 			return nil
+		case SliceV:
+			if v.Arr.Obj == nil {
+				return nil
+			}
+			if !v.Len.IsConst() || !v.Off.IsConst() {
+				panic(unsupported("clear of a slice with symbolic bounds"))
+			}
+			arr := st.arrayAt(v.Arr)
+			et := c.Args[0].Type().Underlying().(*types.Slice).Elem()
+			for i := 0; i < int(v.Len.Val); i++ {
+				arr.E[int(v.Off.Val)+i] = st.zero(et)
+			}
+			return nil
 		}
 	case "ssa:wrapnilchk":
 		if p, ok := args[0].(Ptr); ok && p.Obj == nil {
